@@ -7,10 +7,10 @@ vars == <<tid, step, ra, verdict>>
 T == Traces[tid]
 M == Models[T.model]
 Acc == <<"ACCEPT", "">>
-SameG(g, lg) == lg.top = g.top /\ lg.tr = g.tr /\ lg.meta = g.meta
+SameG(g, lg) == lg.top = g.top /\ lg.tr = g.tr /\ SameMeta(lg.meta, g.meta)
 SameMarkers(g, lg) == lg.epi = EpiView(g)
 SameSeq(gs, lgs) == Len(gs) = Len(lgs) /\ \A i \in DOMAIN gs : SameG(gs[i], lgs[i])
-SameLogged(a, b) == Len(a) = Len(b) /\ \A i \in DOMAIN a : a[i].top = b[i].top /\ a[i].tr = b[i].tr /\ a[i].meta = b[i].meta
+SameLogged(a, b) == Len(a) = Len(b) /\ \A i \in DOMAIN a : a[i].top = b[i].top /\ a[i].tr = b[i].tr /\ SameMeta(a[i].meta, b[i].meta)
 
 (* ---------------- kind = "stream" ---------------- *)
 StrA == LET o == Outcome(T.text, "str") IN [ok |-> o.ok, gs |-> GraphsOf(o.trees, M)]
